@@ -53,6 +53,11 @@ type worldDef struct {
 
 var worlds = map[string]worldDef{}
 
+// exitNow is set for single-run worlds: called inside the bubble when the run
+// is over, it writes the result and leaves the process (goroutines of the
+// shipped code that never exit would keep the bubble alive for ever).
+var exitNow func()
+
 func register(world, profilePrefix string, single bool, fn WorldFn) {
 	worlds[world+"/"+profilePrefix] = worldDef{fn, single}
 }
@@ -120,6 +125,20 @@ func TestWorker(t *testing.T) {
 		r := sim.NewRun(tp, spec.Profile, spec.Opts, spec.KeepTrace)
 		res := &sim.Result{Property: spec.Property, World: spec.World, Profile: spec.Profile, Idx: rs.Idx, Seed: rs.Seed}
 		start := time.Now()
+		finish := func() {
+			r.Finish(res)
+			res.WallMs = float64(time.Since(start).Microseconds()) / 1000
+			emit(res)
+		}
+		if def.single {
+			// the world ends the process from inside its bubble
+			exitNow = func() {
+				finish()
+				out.Sync()
+				out.Close()
+				syscall.Exit(0)
+			}
+		}
 		func() {
 			defer func() {
 				if p := recover(); p != nil {
@@ -132,9 +151,7 @@ func TestWorker(t *testing.T) {
 			}()
 			def.fn(t, r)
 		}()
-		r.Finish(res)
-		res.WallMs = float64(time.Since(start).Microseconds()) / 1000
-		emit(res)
+		finish()
 	}
 	out.Sync()
 	out.Close()
